@@ -3,6 +3,7 @@ package main
 import (
 	"fmt"
 	"math/big"
+	"sync"
 
 	"github.com/onflow/crypto"
 	"github.com/onflow/crypto/hash"
@@ -316,6 +317,68 @@ func genC11(c *Ctx) {
 			})
 			c.Case(class, fmt.Sprintf("ecdsa fmt %s %s", cv.name, hx(sig)), ans)
 		}
+		// digests with a shape: leading zero bytes (one, two), leading ff, for every hasher (the 48- and 128-byte
+		// ones above all: "the leftmost 256 bits" must be taken from the BYTES, not from the integer). The library signs
+		// and the model verifies; an independent signer (the harness's own affine arithmetic on the digest bytes)
+		// signs and the library verifies.
+		{
+			gen := affPt{hexInt(map[string]string{"p256": "6b17d1f2e12c4247f8bce6e563a440f277037d812deb33a0f4a13945d898c296", "k256": "79be667ef9dcbbac55a06295ce870b07029bfcdb2dce28d959f2815b16f81798"}[cv.name]),
+				hexInt(map[string]string{"p256": "4fe342e2fe1a7f9b8ee7eb4a7c0f9e162bce33576b315ececbb6406837bf51f5", "k256": "483ada7726a3c4655da4fbfc0e1108a8fd17b448a68554199c47d08ffb10d4b8"}[cv.name])}
+			d := c.randMod(cv.n)
+			sk := ecSk(cv, d)
+			pk := sk.PublicKey()
+			ownSign := func(digest []byte) []byte {
+				e := new(big.Int).SetBytes(digest[:32])
+				for {
+					k := c.randMod(cv.n)
+					R := cv.mul(k, gen)
+					if R.x == nil {
+						continue
+					}
+					r := new(big.Int).Mod(R.x, cv.n)
+					sv := new(big.Int).Mul(r, d)
+					sv.Add(sv, e).Mul(sv, new(big.Int).ModInverse(k, cv.n)).Mod(sv, cv.n)
+					if r.Sign() == 0 || sv.Sign() == 0 {
+						continue
+					}
+					return append(be(r, 32), be(sv, 32)...)
+				}
+			}
+			shapes := []struct {
+				name string
+				ok   func([]byte) bool
+				max  int
+			}{
+				{"zero-byte", func(g []byte) bool { return g[0] == 0 }, 5000},
+				{"two-zero-bytes", func(g []byte) bool { return g[0] == 0 && g[1] == 0 }, 400000},
+				{"ff-byte", func(g []byte) bool { return g[0] == 0xff }, 5000},
+				{"zero-at-32", func(g []byte) bool { return len(g) > 32 && g[32] == 0 && g[31] == 0 }, 400000},
+			}
+			for _, hs := range hashers {
+				for _, sh := range shapes {
+					if sh.name == "two-zero-bytes" && !c.thorough() && hs.h.Size() <= 32 {
+						continue
+					}
+					var msg []byte
+					for ctr := 0; ctr < sh.max; ctr++ {
+						m := []byte(fmt.Sprintf("%s/%s/%d", cv.name, sh.name, ctr))
+						if g := hs.h.ComputeHash(m); len(g) >= 32 && sh.ok(g) {
+							msg = m
+							break
+						}
+					}
+					if msg == nil {
+						continue
+					}
+					sig, err := sk.Sign(msg, hs.h)
+					if err != nil {
+						panic(err)
+					}
+					verify("digest-shape/"+sh.name+"/library-signs", pk, hs.h, msg, sig)
+					verify("digest-shape/"+sh.name+"/independent-signer", pk, hs.h, msg, ownSign(hs.h.ComputeHash(msg)))
+				}
+			}
+		}
 		for ki := 0; ki < nKeys; ki++ {
 			d := c.randMod(cv.n)
 			if ki == 0 {
@@ -477,6 +540,61 @@ func genC11(c *Ctx) {
 				want = "NilHasher NilHasher"
 			}
 			c.Case("hasher-guard", "expect "+want+" #"+cv.name+name, ans)
+		}
+		// overlapping verifications on one curve, each with its own key, hasher object, long message (hashing takes a
+		// while) and signature - valid ones and ones with a flipped bit, format checks of other strings in between: a
+		// verdict is a function of (key, digest, signature), whatever else is being verified at the same time
+		{
+			const g = 4
+			type job struct {
+				pk       crypto.PublicKey
+				h        hash.Hasher
+				msg      []byte
+				sig, bad []byte
+			}
+			jobs := make([]job, g)
+			for i := range jobs {
+				k := ecSk(cv, c.randMod(cv.n))
+				j := job{pk: k.PublicKey(), h: []hash.Hasher{hash.NewSHA2_256(), hash.NewSHA3_256(), hash.NewSHA2_384(), hash.NewSHA3_384()}[i%4], msg: c.bytes(120000 + 1000*i)}
+				j.sig, _ = k.Sign(j.msg, j.h)
+				j.bad = flipBitRaw(j.sig, 40+i)
+				jobs[i] = j
+			}
+			results := make([]string, g)
+			var wg sync.WaitGroup
+			start := make(chan struct{})
+			for i := range jobs {
+				wg.Add(1)
+				go func(i int) {
+					defer wg.Done()
+					j := jobs[i]
+					<-start
+					for rep := 0; rep < 15 && results[i] == ""; rep++ {
+						results[i] = guard(func() string {
+							if ok, err := j.pk.Verify(j.sig, j.msg, j.h); err != nil || !ok {
+								return fmt.Sprintf("valid-signature-rejected worker %d repetition %d", i, rep)
+							}
+							if ok, _ := j.pk.Verify(j.bad, j.msg, j.h); ok {
+								return fmt.Sprintf("invalid-signature-accepted worker %d repetition %d", i, rep)
+							}
+							if ok, _ := crypto.SignatureFormatCheck(cv.algo, jobs[(i+1)%g].bad); !ok {
+								return fmt.Sprintf("well-formed-signature-refused worker %d repetition %d", i, rep)
+							}
+							return ""
+						})
+					}
+				}(i)
+			}
+			close(start)
+			wg.Wait()
+			verdict := "ok"
+			for _, r := range results {
+				if r != "" {
+					verdict = r
+					break
+				}
+			}
+			c.Case("overlapping-verifications", "expect ok #overlap "+cv.name, verdict)
 		}
 	}
 }
